@@ -271,11 +271,22 @@ def gen_items(rng, decls, toks, depth=0, nitems=None, fancy=True, used_titles=No
             toks.append(val_token(rng, d.typ, fancy)[0])
 
 
+ODD_KEYS = ['a b', 'x#y', 'q"r', 'k+', 'br{ace', 'clo}se', 'two\nlines', 'a,b', 'p(q)', 'sl//ash', 'st/*ar', 'dollar$x', "it's", 'back\\slash', 'tab\there', '\xe9t\xe9', '*', '+=', '${HOME}']
+
+
 def gen_keyvals(rng, d, toks, fancy, to):
     for _ in range(rng.randint(0, 4)):
         key = rng.choice(['alpha', 'beta', 'gamma', 'k1', 'k2', 'path', 'x.y', 'A'])
         if to.get('nocase') and rng.random() < 0.4:
             key = ''.join(c.upper() if rng.random() < 0.5 else c.lower() for c in key)
+        if to.get('oddkeys') and rng.random() < 0.3:
+            # free-form keys are whatever the text says: also strings that need quotes to be read back
+            key = rng.choice(ODD_KEYS)
+            toks.append(['name', spell_string(rng, key, fancy), key])
+            toks.append(['=', '=', None])
+            s = rand_string(rng)
+            toks.append(['val', spell_string(rng, s, fancy), s])
+            continue
         toks.append(['name', key, key])
         toks.append(['=', '=', None])
         s = rand_string(rng)
